@@ -562,6 +562,25 @@ func checkFailureChainRepair(c *Ctx, res *report.Result, f *ssa.Function, rule s
 					}
 				}
 			}
+			// ... and by nothing else that looks at the link: a further test of another field of the failure (its
+			// encoded attributes, its type) leaves some invalid messages unrepaired
+			for _, g := range flow.NormGuards(flow.Guards(st.Block())) {
+				var ops []ssa.Value
+				switch x := g.Cond.(type) {
+				case *ssa.BinOp:
+					ops = []ssa.Value{x.X, x.Y}
+				case *ssa.Call:
+					ops = []ssa.Value{x}
+				}
+				for _, o := range ops {
+					if oc, isC := flow.ResolveLoad(o).(*ssa.Call); isC && len(oc.Call.Args) > 0 && oc.Call.Args[0] == ssa.Value(carried) && !oc.Call.IsInvoke() {
+						if sc := flow.StaticCallee(&oc.Call); sc != nil && sc.Name() != "GetMessage" && strings.HasPrefix(sc.Name(), "Get") {
+							exact = false
+							guardTxt = "the rewrite also depends on " + sc.Name() + "() of the link; " + guardTxt
+						}
+					}
+				}
+			}
 			res.Check(exact, rule, "repairInvalidUTF8InFailure: a link is rewritten exactly when its message is not valid UTF-8", instrPos(c.Prog, st), "guard: !utf8.ValidString(message)", "the rewrite (and the 'changed' verdict) is guarded by a test that is not an exact validity test of the message ("+guardTxt+"): some invalid messages are left unrepaired, or valid ones are touched")
 			// inside the loop: the store's block is dominated by the loop header and can reach it
 			inLoop := carried.Block().Dominates(st.Block()) && flow.ReachBlock(st.Block(), carried.Block(), nil)
